@@ -375,13 +375,14 @@ def main(tier="quick", seed=0, only=None):
     tasks = [("trees", c) for c in chunks(shapes, 2 if tier == "quick" else 20)]
     vols = [(s, u) for s in SIZES for u in UNITS if not (u.lower() in ("m", "g") and s == "65536" and False)]
     tasks += [("volumes", c) for c in chunks(vols, 3)]
-    bases = basegen.all_bases("quick")
-    pick = [i for i, b in enumerate(bases) if b["password"] is None][: 4 if tier == "quick" else 8]
+    # every base archive that needs no password: each decoder family fails in its own way (an LZMA1 stream that
+    # ends early raises a different exception class than a CRC mismatch; seeded change C19b hid behind that)
+    bases = basegen.all_bases(tier)
+    pick = [i for i, b in enumerate(bases) if b["password"] is None and (tier == "quick" or ":3f" not in b["name"])]
     for i in pick:
         n = sum(1 for _ in damage_images(bases[i]["blob"], bases[i]["packed"], ("flip", "trunc")))
         step = 300
-        stride = 1
-        tasks += [("images", (i, "quick", lo, min(lo + step, n))) for lo in range(0, n, step)]
+        tasks += [("images", (i, tier, lo, min(lo + step, n))) for lo in range(0, n, step)]
     tasks.append(("special", None))
     with Pool() as pool:
         res = pool.map(f"{MODULE}:shard", tasks, soft=3000)
@@ -392,7 +393,7 @@ def main(tier="quick", seed=0, only=None):
             f"{len(shapes)} source trees: c (with and without .7z in the name) -> l (every library-listed name shown) -> x (plain, --verbose, without "
             "output directory) -> a extra file -> x (earlier members undisturbed) -> t, plus the error statuses of c on an existing archive and a on "
             f"a missing one; -v SIZE for every SIZE in {SIZES} x every unit in {UNITS} (volumes sized as requested, concatenation extracts to the tree); "
-            "t and x on EVERY single-bit flip and EVERY truncation of 4 (thorough 8) base archives, judged against the library's own verdict on the "
+            f"t and x on EVERY single-bit flip and EVERY truncation of {len(pick)} base archives (every password-free base of the tier: one per decoder family, raw and packed headers, several folders, reference layouts), judged against the library's own verdict on the "
             "same bytes (exit 0 <=> the library succeeds; exit 0 on x => the extracted files are the original members); encrypted / unsupported-"
             "method / damaged fixtures and non-archives. Statuses are taken in-process (return value / SystemExit / uncaught exception = 1); the "
             "mapping is compared with real `python -m py7zr` subprocesses on 10 invocations every run."
